@@ -271,6 +271,10 @@ def gen_request(rng, v, rid, profile):
         {"command": 5, "id": rid, "properties": {}},
         {"id": rid},
         {"command": "stop", "id": rid, "properties": rng.choice([5, [1], "x", None])},
+        # `"properties": null` is not an object: refused for every command, the ones without mandatory properties included
+        {"command": rng.choice(["stop", "start", "restart", "reload", "quit", "numwatchers", "list", "incr"]), "id": rid,
+         "properties": None},
+        {"command": rng.choice(["stop", "restart", "reload", "quit"]), "id": rid, "properties": rng.choice([None, [], 0, False])},
         {"command": "status", "id": {"k": [rid]}, "properties": {}},
         {"command": "list", "properties": {}},
         {"command": "numwatchers", "id": rid, "msg_type": rng.choice(["cast", "dealer", 5])},
